@@ -214,6 +214,42 @@ func runC16(c *an.Ctx) {
 	}
 	c.MinCount("R2", "calls of cutting scanners", nCut, 1)
 	c16ParsedIsApplied(c)
+	// one continuation mark is one backslash: text is cut with TrimSuffix/TrimPrefix (an affix), never with a
+	// Trim/TrimRight/TrimLeft whose cut set contains the backslash or a quote, which strips *every* such byte at
+	// that end and so eats escapes that belong to the text (\\d, \\., \\\\) when the break falls right after them
+	nTrim := 0
+	for _, fn := range c.P.ModFuncs {
+		if relPkg(fn) != "internal/seclang" {
+			continue
+		}
+		an.Instrs(fn, func(in ssa.Instruction) {
+			cc := an.CallOf(in)
+			if cc == nil || cc.StaticCallee() == nil || cc.StaticCallee().Pkg == nil || cc.StaticCallee().Pkg.Pkg.Path() != "strings" {
+				return
+			}
+			switch cc.StaticCallee().Name() {
+			case "TrimSuffix", "TrimPrefix":
+				nTrim++
+			case "Trim", "TrimRight", "TrimLeft":
+				cs := an.Expr(cc.Args[1])
+				if strings.Contains(cs, `\\`) {
+					nTrim++
+					c.Bad("R4", "cut set containing a backslash in "+an.RelName(fn), in.Pos(), "strings."+cc.StaticCallee().Name()+" with cut set "+cs+" removes every trailing/leading backslash, not just the one that marks the continuation: a line broken right after an escape (\\d, \\., \\\\) silently loses it")
+				}
+			}
+		})
+	}
+	c.MinCount("R4", "affix trims in the configuration parser", nTrim, 1)
+	// a numeric phase is the whole text converted to a number (phase:1t:none, phase:10 are rejected)
+	if pp := c.FnOpt("types.ParseRulePhase"); pp != nil && len(pp.Params) > 0 {
+		whole := false
+		an.Instrs(pp, func(in ssa.Instruction) {
+			if (an.IsCallToFunc(in, "strconv", "Atoi") || an.IsCallToFunc(in, "strconv", "ParseInt")) && an.CallOf(in).Args[0] == ssa.Value(pp.Params[0]) {
+				whole = true
+			}
+		})
+		c.Check(whole, "R2", "ParseRulePhase converts the whole text", pp.Pos(), "strconv.Atoi(phase)", "the numeric phase is no longer obtained by converting the whole text: a phase value followed by other bytes (a deleted comma: phase:1t:none) is accepted as that phase and the swallowed text disappears without an error")
+	}
 	// a regular expression taken from rule text is compiled as written: in the ctl parser (and wherever a pattern
 	// goes to regexp.Compile from text that is not a collection key of a case-insensitive collection) nothing
 	// case-folds it first - lower-casing turns \S into \s, \D into \d, [A-Z] into [a-z] without any error
